@@ -8,6 +8,12 @@
      ExX n            dst.Exists(n) returned an error        (injected before or after the real call,
                                                                or the store's own / the context's error)
      SFX n            src.Fetch(n) returned an error          (proxy fetch of a manifest, or doCopyNode's fetch)
+     SRX n            Read() of the stream fetched for the manifest n failed while the proxy was reading it
+                      for FindSuccessors (cas.Proxy.Fetch / content.FetchAll): the reader is still open
+                      (FetchAll's deferred Close follows).  A read error while a destination Push / Mount
+                      consumes the stream is reported by that operation (PuX / MtX, nothing stored)
+     FSX n            the FindSuccessors callback of CopyGraphOptions failed for n: before it fetched anything
+                      (the node still waits for its proxy fetch) or after (successors known, none dispatched)
      PuX n ref stored dst.Push / PushReference(n) returned an error; stored = the content was
                       stored before the error was returned (fault AFTER the side effect)
      MtX n stored     dst.Mount(n) (registry.Mounter, one candidate repository) returned an error, either
@@ -37,20 +43,23 @@
 
    ExtendedCopyGraph ([ext = true]): the outer syncutil.Go over the roots found by findRoots is a
    VIRTUAL SUPER-ROOT: [c_root c] is a node that is not content, whose successors are the roots
-   and whose phase is [Waiting] from the start (ExtendedCopyGraph's closure does region.End() and
+   and whose phase is [Waiting] from the start and for ever (events naming it are rejected;
+   ExtendedCopyGraph's closure does region.End() and
    calls copyGraph with the shared limiter and tracker for every root: exactly a parent that has
    dispatched its successors).  Success needs every root [Done].
    CopySpec's own view of the same fan-out ([c_xroots c]: further roots dispatched together with
    [c_root c], [ext = false]) is supported as well: the theorems hold for both views, and the
    model runner evaluates every recorded ExtendedCopyGraph trace under both and requires the
    same verdict. *)
-From Oras Require Import Base.Prelude Model.CopySpec.
+From Oras Require Import Base.Prelude Model.CopySpec Model.CopyOpt.
 Local Open Scope nat_scope.
 
 Inductive fevent :=
 | Ev (e : event)
 | ExX (n : node)
 | SFX (n : node)
+| SRX (n : node)
+| FSX (n : node)
 | PuX (n : node) (ref stored : bool)
 | TagX (n : node) (set : bool)
 | MtX (n : node) (stored : bool)
@@ -94,6 +103,10 @@ Definition with_base (fs : fstate) (st : state) : fstate :=
 Definition remove_node (n : node) (l : list node) : list node :=
   filter (fun m => negb (Nat.eqb m n)) l.
 
+(* ExtendedCopyGraph: the virtual super-root is not content -- no operation or callback ever names it *)
+Definition on_virtual (c : cfg) (ext : bool) (e : event) : bool :=
+  ext && match ev_node e with Some n => Nat.eqb n (c_root c) | None => false end.
+
 Definition fstep (g : graph) (c : cfg) (ext : bool) (fs : fstate) (fe : fevent) : option fstate :=
   let st := fb fs in
   match returned st with
@@ -121,7 +134,7 @@ Definition fstep (g : graph) (c : cfg) (ext : bool) (fs : fstate) (fe : fevent) 
             else None
         | None =>
             match step g c st e with
-            | Some st' => Some (with_base fs st')
+            | Some st' => if on_virtual c ext e then None else Some (with_base fs st')
             | None => None
             end
         end
@@ -133,6 +146,16 @@ Definition fstep (g : graph) (c : cfg) (ext : bool) (fs : fstate) (fe : fevent) 
     | SFX n =>
         match ph st n with
         | MF1 | F1 _ | MtF1 => Some (with_base fs (set_ph st n Dead))
+        | _ => None
+        end
+    | SRX n =>
+        match ph st n with
+        | MF2 => Some (mkF (set_ph st n Dead) (f_cancelled fs) (f_aborted fs) true (n :: f_rd fs))
+        | _ => None
+        end
+    | FSX n =>
+        match ph st n with
+        | NeedFetch | Waiting => if on_virtual c ext (ExB n) then None else Some (with_base fs (set_ph st n Dead))
         | _ => None
         end
     | PuX n ref stored =>
@@ -183,7 +206,7 @@ Definition faccepts (g : graph) (c : cfg) (ext : bool) (d0 : list node) (tr : li
 (* the events the property calls faults *)
 Definition is_fault (fe : fevent) : bool :=
   match fe with
-  | Ev (CbFail _ _) | ExX _ | SFX _ | PuX _ _ _ | TagX _ _ | MtX _ _ | ProX | Cancel => true
+  | Ev (CbFail _ _) | ExX _ | SFX _ | SRX _ | FSX _ | PuX _ _ _ | TagX _ _ | MtX _ _ | ProX | Cancel => true
   | _ => false
   end.
 
